@@ -77,6 +77,32 @@ fn run_conn(cfg: Cfg, chunks: &[Vec<u8>]) -> Outcome {
     })
 }
 
+/// Successive connections on ONE world (they share its buffer pool): each gets its chunks, then EOF, and runs to
+/// completion before the next one is opened. Returns what each connection wrote.
+fn run_generations(cfg: Cfg, pool_buffers: usize, gens: &[Vec<Vec<u8>>]) -> Vec<Outcome> {
+    polex::with_runtime(|rt| {
+        rt.block_on(async {
+            let mut w = ConnWorld::with_pool(cfg.shards, pool_buffers);
+            let mut outs = Vec::new();
+            for (g, chunks) in gens.iter().enumerate() {
+                let (stream, id) = w.connect(&format!("conn{g}"), cfg.conn());
+                stream.set_write_cap(cfg.write_cap);
+                for c in chunks {
+                    stream.push(c);
+                }
+                stream.close();
+                let r = w.settle().await;
+                outs.push(Outcome { written: stream.take_written(), finished: w.finished(id), error: r.err().or_else(|| w.sched.panicked.clone()) });
+            }
+            outs
+        })
+    })
+}
+
+fn show_stream(v: &[Argv]) -> String {
+    v.iter().map(resp::show_argv).collect::<Vec<_>>().join("; ")
+}
+
 fn show_replies(v: &[RespValue]) -> String {
     v.iter().map(resp::show).collect::<Vec<_>>().join(" | ")
 }
@@ -469,6 +495,58 @@ fn main() {
         }
     });
 
+    // ---- successive connections sharing the buffer pool: connection A sends complete commands and then hangs up in the
+    // middle of a frame (every structural prefix of it); connections B and C, opened afterwards on the same server, must
+    // be answered exactly as on a server whose connection A had hung up between frames and whose pool never hands a
+    // buffer out twice (pool of 64)
+    let gen_runs = AtomicU64::new(0);
+    {
+        let l = |x: &str| resp::line(x);
+        let a_complete: Vec<Argv> = vec![l("SET k v")];
+        let tails: Vec<Argv> = vec![l("SET stale x"), l("GET k"), l(&format!("SET k {V64}"))];
+        let followers: Vec<Vec<Argv>> = vec![vec![l("PING")], vec![l("GET k")], vec![l("SET k2 y"), l("GET k2")], vec![l("GET stale"), l("DBSIZE")]];
+        let mut items: Vec<(usize, usize, usize, usize, usize)> = Vec::new(); // tail, cut, follower B, follower C, pool
+        for (ti, t) in tails.iter().enumerate() {
+            let wire = resp::wire(t);
+            let cuts: Vec<usize> = structural_offsets(&[0], &wire);
+            for c in cuts {
+                for b in 0..followers.len() {
+                    for cc in 0..followers.len() {
+                        for pool in [2usize, 4] {
+                            if thorough || (b == cc || cc == 0) {
+                                items.push((ti, c, b, cc, pool));
+                            }
+                        }
+                    }
+                }
+            }
+        }
+        let cfg = Cfg { min_pipeline_buffer: 60, batch_threshold: 2, write_cap: 0, read_buffer_size: 8192, shards: 2 };
+        par::par_map(&items, |_, (ti, cut, b, cc, pool)| {
+            let a_wire: Vec<u8> = a_complete.iter().flat_map(|f| resp::wire(f)).collect();
+            let mut a_torn = a_wire.clone();
+            a_torn.extend_from_slice(&resp::wire(&tails[*ti])[..*cut]);
+            let fw = |i: usize| -> Vec<Vec<u8>> { followers[i].iter().map(|f| resp::wire(f)).collect() };
+            let got = run_generations(cfg, *pool, &[vec![a_torn.clone()], fw(*b), fw(*cc)]);
+            let want = run_generations(cfg, 64, &[vec![a_wire.clone()], fw(*b), fw(*cc)]);
+            gen_runs.fetch_add(2, Ordering::Relaxed);
+            for g in 1..3 {
+                let (dg, _) = decode_replies(&got[g].written);
+                let (dw, _) = decode_replies(&want[g].written);
+                if got[g].error.is_some() || show_replies(&dg) != show_replies(&dw) {
+                    rep.violation(
+                        format!("successive-connections: connection {} answered differently after an earlier connection hung up mid-frame", if g == 1 { "B" } else { "C" }),
+                        format!("pool of {pool} buffers; connection A sent [{}] + the first {cut} bytes of `{}` and closed; then B sent [{}], then C sent [{}]: connection {} got [{}]{} but on a server whose A closed between frames (pool of 64) it gets [{}]",
+                            show_stream(&a_complete), resp::show_argv(&tails[*ti]), show_stream(&followers[*b]), show_stream(&followers[*cc]), if g == 1 { "B" } else { "C" },
+                            show_replies(&dg), got[g].error.as_ref().map(|e| format!(" (error: {e})")).unwrap_or_default(), show_replies(&dw)),
+                        json!({"generations": true, "tail": ti, "cut": cut, "b": b, "c": cc, "pool": pool}),
+                    );
+                    break;
+                }
+            }
+        });
+    }
+
     // ---- large replies: a value of 4 KiB .. 200 kB is stored, then every body of <=3 commands over readers of it
     // (bulk reply, nested reply, range reply) and small commands arrives in one read / frame per read / cut inside a
     // body frame; sizes sit around the powers of two a buffer or a "large reply" shortcut is likely to use
@@ -665,7 +743,7 @@ fn main() {
             }
         }
     });
-    let total_runs = runs.load(Ordering::Relaxed) + mal_runs.load(Ordering::Relaxed) + sweep_runs.load(Ordering::Relaxed) + large_runs.load(Ordering::Relaxed);
+    let total_runs = runs.load(Ordering::Relaxed) + mal_runs.load(Ordering::Relaxed) + sweep_runs.load(Ordering::Relaxed) + large_runs.load(Ordering::Relaxed) + gen_runs.load(Ordering::Relaxed);
     let coverage = json!({
         "evaluations": total_runs,
         "distinct_nontrivial": distinct_outputs.lock().unwrap().len(),
@@ -675,6 +753,7 @@ fn main() {
         "configs": cfgs.iter().map(|c| c.label()).collect::<Vec<_>>(),
         "handler_runs_wellformed": runs.load(Ordering::Relaxed),
         "handler_runs_malformed": mal_runs.load(Ordering::Relaxed),
+        "successive_connections": {"handler_runs": gen_runs.load(Ordering::Relaxed), "rule": "three connections one after another on one server with a buffer pool of 2 or 4 buffers: A sends SET k v plus every structural prefix of a further frame and hangs up; B and C send one of four short streams each; B's and C's replies must equal those on a server with a pool of 64 whose A hung up between frames"},
         "large_replies": {"handler_runs": large_runs.load(Ordering::Relaxed), "rule": "SET k <value of 4 KiB .. 200 kB (thorough: .. 1 MiB+1), sizes around powers of two> in its own read, then every body of <=3 commands over {GET k, PING, GET k2, STRLEN k, GETRANGE k 0 -1, MGET k k2} whole / frame per read / cut at every structural offset, every configuration (5-byte read buffer up to 16 KiB)"},
         "command_set_sweep": {"command_instances": insts.len(), "streams": sweep_items.len(), "handler_runs": sweep_runs.load(Ordering::Relaxed),
             "rule": "stream = [optional seeding frame for k1 (string, list, set, hash, zset)] + one instance of every command shape of the parsers' command set + PING; whole and every single cut at every byte (quick: seeded streams at structural offsets) under 3 configurations (default, mpb1-bt2, 5-byte read buffer); replies compared with the frame-per-read run, unordered replies as multisets",
